@@ -1310,8 +1310,11 @@ fn process_file_content(
         return Ok((file_matches, false));
     }
 
-    // Convert to string
-    let content = String::from_utf8_lossy(&content_bytes);
+    // Convert to string. A file that is not valid UTF-8 is skipped: apply reads files as UTF-8 text and
+    // could not edit it, and positions found in a lossily decoded copy are not offsets into the file.
+    let Ok(content) = std::str::from_utf8(&content_bytes) else {
+        return Ok((file_matches, false));
+    };
     let lines: Vec<&str> = content.lines().collect();
     let relative_path = path.strip_prefix(root).unwrap_or(path);
     let mut has_matches = false;
